@@ -11,10 +11,12 @@ import (
 	"sort"
 	"strconv"
 	"strings"
+	"sync"
 	"time"
 
 	gohlslib "github.com/bluenviron/gohlslib/v2"
 	"github.com/bluenviron/gohlslib/v2/pkg/codecs"
+	"github.com/bluenviron/gohlslib/v2/pkg/storage"
 	"github.com/bluenviron/mediacommon/v2/pkg/codecs/h265"
 	"github.com/bluenviron/mediacommon/v2/pkg/codecs/mpeg4audio"
 	"github.com/bluenviron/mediacommon/v2/pkg/formats/fmp4"
@@ -670,6 +672,26 @@ func variantOf(v int) gohlslib.MuxerVariant {
 	return gohlslib.MuxerVariantLowLatency
 }
 
+// faultFactory fails the NewFile calls whose ordinal is listed, like os.Create does on a transient
+// EMFILE / ENOSPC, and forwards the others.
+type faultFactory struct {
+	inner storage.Factory
+	fail  map[int]bool
+	n     int
+	mu    sync.Mutex
+}
+
+func (f *faultFactory) NewFile(fileName string) (storage.File, error) {
+	f.mu.Lock()
+	k := f.n
+	f.n++
+	f.mu.Unlock()
+	if f.fail[k] {
+		return nil, fmt.Errorf("open %s: too many open files (injected)", fileName)
+	}
+	return f.inner.NewFile(fileName)
+}
+
 func runImpl(h *history, dir string) (res *runResult) {
 	res = &runResult{firstOpen: -1, hashes: map[string][32]byte{}}
 	defer func() {
@@ -696,7 +718,24 @@ func runImpl(h *history, dir string) (res *runResult) {
 		res.lines = append(res.lines, []int64{0, 11})
 		return res
 	}
-	defer m.Close()
+	defer func() {
+		// a panic inside a Write leaves the muxer's mutex locked: Close would block forever
+		if r := recover(); r != nil {
+			res.panics = append(res.panics, fmt.Sprint(r))
+			go m.Close()
+			return
+		}
+		m.Close()
+	}()
+	if len(h.Faults) > 0 {
+		fail := map[int]bool{}
+		for _, f := range h.Faults {
+			fail[f] = true
+		}
+		gohlslib.VerifWrapStorage(m, func(inner storage.Factory) storage.Factory {
+			return &faultFactory{inner: inner, fail: fail}
+		})
+	}
 
 	snap := gohlslib.VerifSnapshot(m)
 	res.prefix = snap.Prefix
